@@ -390,3 +390,27 @@ def r6(ctx: Ctx) -> None:
     writer_allowlist(ctx, "OrderBook", "time", {"OrderBook.__init__": "constructor", BST: "setter used by the market", "OrderBook._update_time": "book-local step (no caller in pams)"})
     for s in ctx.cg.sites_calling(BST):
         ctx.check(caller_ok(ctx, s.caller, lambda h: h.qualname in (UT, "Market._set_time")), s.caller, s.node, f"caller of {BST}", "the market's clock methods", s.caller.qualname)
+
+
+@rule("C06.H1", "mechanism shared with C18: a session lasts exactly the configured number of steps (the runner accumulates session start times from the same key)", "T8/T9 (same rule as C18.R5)", floor=5)
+def h1(ctx: Ctx) -> None:
+    from .c18 import r5 as session_keys_rule
+
+    session_keys_rule(ctx)
+
+
+@rule("C06.R7", "the recorded series of a market are read only by that market's own guarded accessors: nobody else indexes another market's series", "T2 who-may-read", floor=1)
+def r7(ctx: Ctx) -> None:
+    import ast as _ast
+
+    n = 0
+    for g in ctx.program.all_functions():
+        for node in _ast.walk(g.node):
+            if isinstance(node, _ast.Attribute) and node.attr in SERIES:
+                n += 1
+                own = isinstance(node.value, _ast.Name) and node.value.id == "self" and g.cls is not None and ctx.program.is_subclass(g.cls.name, "Market")
+                if own:
+                    continue
+                ctx.violated(g, node, "a market's series is reached through its accessors (which refuse future times)", "market.get_<series>(time) / self.<series> inside Market", f"{_ast.unparse(node)} in {g.qualname}: the read bypasses the `later than now` test")
+    ctx.require(n >= 10, "series attribute accesses not found")
+    ctx.holds(None, None, "no function outside Market reads a series attribute directly", "reads only via accessors", f"{n} accesses inspected")
